@@ -85,6 +85,7 @@ using namespace cds_utils;
 
 #define MAXK 16
 #define CHNK 16
+#define MAXSUBSTR 15 // Symbols per table entry (4 bits; 0 means 'subtree')
 
 class DecodeableSubstr {
 public:
